@@ -24,6 +24,9 @@ structure SpecW where
   gens : List (Nat × String) := []
   /-- ghost for C18: the tracked component's value per entity at the previous `track` -/
   tprev : List (Entity × Nat) := []
+  /-- a bulk reservation whose handles were not enumerated is outstanding (end of the id space): the
+  reserved set is known only in part, so whole-world observations are not compared -/
+  bulkOutstanding : Bool := false
   deriving Repr, Inhabited
 
 namespace SpecW
